@@ -90,6 +90,7 @@ def run_job(job, kind, k, limexp):
 def _run_epsalg(ex, terms):
     sn.SymQ.NONZERO.clear()
     sn.SymQ.ABS_SEEN.clear()
+    sn.SymQ.ABS_THRESHOLDS.clear()
     outs = []
 
     def harness():
@@ -123,6 +124,10 @@ def eps_geo(job, ex, k):
     job.prove('limit recovered from %d terms (k=%d)' % (2 * k + 1, k), final.eq_term(sn.SymQ(L)), nd,
               dict(key='C14:EpsAlg:limit-not-recovered', kind='eps', k=k))
     job.confirm('assumed-nondegenerate-differences', len(deltas) > 0)
+    # "as long as no table difference vanishes": the code may only treat differences below 1e-30 (absolute) as vanishing
+    thr = max(sn.SymQ.ABS_THRESHOLDS) if sn.SymQ.ABS_THRESHOLDS else 0.0
+    if not job.confirm('degenerate-difference threshold <= 1e-30', thr <= 1e-30):
+        job.violation('threshold', dict(key='C14:EpsAlg:nonvanishing-difference-treated-as-zero', kind='eps_threshold', threshold=thr))
     job.twin('non-degenerate parameters exist', nd)
     # the value after 2k terms must NOT already be L in general (the check can see a shifted index)
     prev = sn.SymQ.of(outs[-2])
@@ -455,6 +460,26 @@ def concrete_failures(limexp, length=200):
 def replay(cex):
     kind = cex.get('kind')
     ex = cm.nd_mods()['ex']
+    if kind == 'eps_threshold':
+        thr = cex.get('threshold', 1.0)
+        for scale in (thr * 1e-3, thr * 1e-6, 1e-20):
+            seq = [scale * (1 + 0.5 ** i) for i in range(5)]
+            e = ex.EpsAlg()
+            for v in seq:
+                r = e(v)
+            F = [Fraction(v) for v in seq]
+            k, n0 = 2, 0
+            num = _fdet([[F[n0 + i + j] for j in range(k + 1)] for i in range(k + 1)])
+            d2 = lambda t: F[t + 2] - 2 * F[t + 1] + F[t]  # noqa
+            den = _fdet([[d2(n0 + i + j) for j in range(k)] for i in range(k)])
+            # with one transient the k=2 entry is degenerate in exact arithmetic; use the k=1 entry after 3 terms instead
+            e = ex.EpsAlg()
+            for v in seq[:3]:
+                r = e(v)
+            want = float((F[0] * F[2] - F[1] * F[1]) / (F[2] - 2 * F[1] + F[0]))
+            if abs(r - want) > 1e-6 * abs(want):
+                return True, 'EpsAlg on %r returns %r after 3 terms; the Shanks entry is %r (no difference vanishes)' % (seq[:3], r, want)
+        return False, 'EpsAlg equals the Shanks entry on small-scale sequences'
     if kind in ('eps', 'eps_table'):
         asg = cm.assignment_from_model(cex.get('model', {}))
         if kind == 'eps':
